@@ -1703,6 +1703,189 @@ def _sse(run):
                  witness=flow.describe_path(cfg, path), runtime_witness='two consecutive events are merged by the client-side parser')
 
 
+# --- payload precedence of an event -------------------------------------------------------------------------------
+SSE_EVENT = 'falcon.asgi.structures.SSEvent'
+# SSEvent class docstring, "Keyword Args": data "Takes precedence over both `text` and `json`", text "Takes precedence over
+# `json`" (the attribute docstrings repeat it) -- the counterpart of text > data > media for a plain response (R3)
+SSE_PAYLOAD_ORDER = ('data', 'text', 'json')
+_ABSENT, _EMPTY, _FULL = 'None', 'empty (falsy, not None)', 'truthy'
+_DOC_ENTRY = re.compile(r'^\s*(\w+) \([^)]*\):', re.M)
+_DOC_PRECEDES = re.compile(r'Takes\s+precedence\s+over\s+([^.]*)\.', re.S)
+
+
+def _documented_precedence(cls: Class) -> List[Tuple[str, str]]:
+    """(a, b) pairs "a takes precedence over b" stated by the class docstring (stated belief; the table must agree)."""
+    doc = ast.get_docstring(cls.node) or ''
+    entries = [(m.group(1), m.start(), m.end()) for m in _DOC_ENTRY.finditer(doc)]
+    pairs = []
+    for i, (name, _s, e) in enumerate(entries):
+        if name not in SSE_PAYLOAD_ORDER:
+            continue
+        body = doc[e: entries[i + 1][1] if i + 1 < len(entries) else len(doc)]
+        for m in _DOC_PRECEDES.finditer(body):
+            for other in re.findall(r'`+(\w+)`+', m.group(1)):
+                if other in SSE_PAYLOAD_ORDER:
+                    pairs.append((name, other))
+    return pairs
+
+
+def _sse_precedence(run):
+    """SSEvent.serialize carries the FIRST payload attribute that is not None in the documented order data > text > json, and
+    only that one.  Decided by abstract evaluation over the presence partition {None, empty, truthy}^3 of the three
+    attributes: for every cell the branch tests are evaluated (`x is None`, truthiness, not/and/or; copies through locals),
+    the infeasible edges pruned, and the statements that put a payload attribute into the event (into the accumulated text
+    or a returned value, directly or through a local computed from it) are collected on what remains: they mention the
+    expected attribute only, and every path to a return passes one.  A test of the payload the cell does not decide is only
+    an analysis error when the verdict depends on it.
+    W: SSEvent(data=b'raw', text='t') with the text branch tested first: the client receives 'data: t'."""
+    p = run.project
+    cls = p.cls(SSE_EVENT)
+    order = SSE_PAYLOAD_ORDER
+    for a, b in _documented_precedence(cls):
+        if order.index(a) > order.index(b):
+            raise AnchorError('%s: the class docstring now says %s takes precedence over %s; the table SSE_PAYLOAD_ORDER is stale' % (cls.qual, a, b))
+    f = p.func(SSE_EVENT + '.serialize')
+    cfg = cfg_of(f, p)
+    run.use_cfg(cfg)
+    al = {k: aliases(f, lambda e, k=k: attr_of(e, 'self', (k,))) for k in order}
+
+    def src_of(e) -> Optional[str]:
+        for k in order:
+            if attr_of(e, 'self', (k,)) or (isinstance(e, ast.Name) and isinstance(e.ctx, ast.Load) and e.id in al[k]):
+                return k
+        return None
+
+    for k in order:
+        if not any(src_of(x) == k for x in walk_self(f.node)):
+            raise AnchorError('%s never reads self.%s' % (f.qual, k))
+    # accumulators (locals that are appended to) and locals computed from a payload attribute
+    accs = {n.target.id for n in walk_self(f.node) if isinstance(n, ast.AugAssign) and isinstance(n.target, ast.Name)}
+    accs |= {t.id for n in walk_self(f.node) if isinstance(n, ast.Assign) for t in n.targets            # x = x + ...
+             if isinstance(t, ast.Name) and any(is_name(y, t.id) for y in ast.walk(n.value))}
+    derived: Dict[str, Set[str]] = {}
+
+    def sources(e, skip_accs=True) -> Set[str]:
+        out: Set[str] = set()
+        for x in walk_self(e):
+            k = src_of(x)
+            if k is not None:
+                out.add(k)
+            elif isinstance(x, ast.Name) and isinstance(x.ctx, ast.Load) and x.id in derived and not (skip_accs and x.id in accs):
+                out |= derived[x.id]
+        return out
+
+    def is_alias_def(a) -> bool:
+        return isinstance(a, ast.Assign) and all(isinstance(t, ast.Name) for t in a.targets) and src_of(a.value) is not None \
+            and not isinstance(a.value, ast.Name)
+
+    changed = True
+    while changed:
+        changed = False
+        for n in walk_self(f.node):
+            if isinstance(n, (ast.Assign, ast.AnnAssign)) and getattr(n, 'value', None) is not None and not is_alias_def(n):
+                tg = n.targets if isinstance(n, ast.Assign) else [n.target]
+                got = sources(n.value)
+                for t in tg:
+                    for x in ast.walk(t):
+                        if isinstance(x, ast.Name) and x.id not in accs and got - derived.get(x.id, set()):
+                            derived.setdefault(x.id, set()).update(got)
+                            changed = True
+    # classify every non-test node that mentions a payload attribute
+    emits: Dict[int, Set[str]] = {}
+    for n in cfg.live_nodes():
+        if n.kind in ('entry', 'exit', 'xexit', 'join', 'test'):
+            continue
+        got: Set[str] = set()
+        for root in n.own():
+            got |= sources(root)
+        if not got:
+            continue
+        a = n.ast if n.kind == 'stmt' else None
+        if a is not None and is_alias_def(a):
+            continue
+        if isinstance(a, (ast.Assign, ast.AnnAssign)) and all(isinstance(t, ast.Name) for t in (a.targets if isinstance(a, ast.Assign) else [a.target])):
+            names = {t.id for t in (a.targets if isinstance(a, ast.Assign) else [a.target])}
+            if names & accs:
+                emits[n.id] = got            # the accumulated text is (re)started with the payload
+            continue                          # a local computed from the payload: judged where it is emitted
+        if isinstance(a, ast.AugAssign) and isinstance(a.target, ast.Name):
+            emits[n.id] = got
+            continue
+        if isinstance(a, ast.Return):
+            emits[n.id] = got
+            continue
+        raise UnknownIdiom('%s: cannot read how `%s` uses the event payload' % (f.qual, short(n.ast if n.ast is not None else n.text(), 70)))
+    if not emits:
+        raise AnchorError('%s: no statement puts a payload attribute into the event' % f.qual)
+    dep_names = set(accs) | set(derived)
+
+    def dependent(test) -> bool:
+        return any(src_of(x) is not None or (isinstance(x, ast.Name) and x.id in dep_names) for x in walk_self(test))
+
+    tests = [n for n in cfg.live_nodes() if n.kind == 'test']
+    results: Dict[Optional[str], list] = {k: [] for k in order + (None,)}
+    undecided_msgs = []
+    for cd in (_FULL, _EMPTY, _ABSENT):
+        for ct in (_FULL, _EMPTY, _ABSENT):
+            for cj in (_FULL, _EMPTY, _ABSENT):
+                cell = dict(zip(order, (cd, ct, cj)))
+                expected = next((k for k in order if cell[k] != _ABSENT), None)
+
+                def atom(e, cell=cell):
+                    k = src_of(e)
+                    if k is not None:
+                        return cell[k] == _FULL
+                    for k in order:
+                        pol = none_test(e, lambda x, k=k: src_of(x) == k)
+                        if pol is not None:
+                            return pol == (cell[k] == _ABSENT)
+                    return None
+                filt = pruned(cfg, atom, flow.no_exc)
+                unsure = [(t.id, y, l) for t in tests if eval3(t.ast, atom) is None and dependent(t.ast) for (y, l) in cfg.succ[t.id] if l in ('T', 'F')]
+                sure = flow.reachable(cfg, [cfg.entry], avoid_edges=unsure, edge_filter=filt)
+                maybe = flow.reachable(cfg, [cfg.entry], edge_filter=filt)
+                label = ', '.join('%s %s' % (k, cell[k]) for k in order)
+                bad = None
+                for nid in sorted(emits, key=lambda i: cfg.node(i).lineno):
+                    wrong = sorted(emits[nid] - ({expected} if expected else set()))
+                    if not wrong:
+                        continue
+                    if nid in sure:
+                        bad = bad or (nid, 'carries %s' % '/'.join(wrong), flow.find_path(cfg, [cfg.entry], [nid], avoid_edges=unsure, edge_filter=filt))
+                    elif nid in maybe:
+                        undecided_msgs.append('%s: for an event with %s, whether `%s` runs depends on `%s`' % (
+                            f.qual, label, short(cfg.node(nid).ast, 60), short(cfg.node(unsure[0][0]).ast, 50)))
+                if bad is None and expected is not None:
+                    good = [nid for nid in emits if emits[nid] == {expected}]
+                    path = flow.find_path(cfg, [cfg.entry], [cfg.exit], avoid_nodes=good, avoid_edges=unsure, edge_filter=filt)
+                    if path is None and not any(g in maybe for g in good):
+                        # whatever the undecided tests say, no statement that carries the expected attribute can run
+                        path = flow.find_path(cfg, [cfg.entry], [cfg.exit], edge_filter=filt)
+                    if path is not None:
+                        rets = [i for i in path if cfg.node(i).kind == 'stmt' and isinstance(cfg.node(i).ast, ast.Return)]
+                        bad = (rets[-1] if rets else path[-1], 'does not carry %s' % expected, path)
+                    elif flow.find_path(cfg, [cfg.entry], [cfg.exit], avoid_nodes=good, edge_filter=filt) is not None:
+                        undecided_msgs.append('%s: for an event with %s, whether %s is emitted depends on `%s`' % (
+                            f.qual, label, expected, short(cfg.node(unsure[0][0]).ast, 50)))
+                results[expected].append((label, bad, cell))
+    for expected in order + (None,):
+        what = ('SSEvent.serialize: the event carries %s whenever it is the first payload attribute that is not None in the documented '
+                'order data > text > json, and nothing else' % expected) if expected else \
+            'SSEvent.serialize: an event without data, text and json carries no payload line'
+        fails = [(label, bad, cell) for (label, bad, cell) in results[expected] if bad is not None]
+        if fails:
+            label, (nid, why, path), cell = fails[0]
+            node = cfg.node(nid)
+            run.fail(what, f, node.ast if node.ast is not None else node.text(), where='%s:%s' % (f.file, node.lineno),
+                     witness=['for an event with %s the returned event %s' % (lb, b[1]) for (lb, b, _c) in fails[:4]] + (flow.describe_path(cfg, path) if path else []),
+                     runtime_witness="SSEvent(%s): the 'data:' line of the body event is not the documented one" % ', '.join(
+                         '%s=<%s>' % (k, 'truthy' if cell[k] == _FULL else 'empty') for k in order if cell[k] != _ABSENT))
+        elif not undecided_msgs:
+            run.ok(what + ' (%d presence cells evaluated)' % len(results[expected]), f.loc(), 'payload %s' % (expected or 'none'))
+    if undecided_msgs and not any(b is not None for rs in results.values() for (_l, b, _c) in rs):
+        raise UnknownIdiom(undecided_msgs[0])
+
+
 _PCT = re.compile(r'%(?:\((\w+)\))?([#0\- +]*)(\*|\d+)?(?:\.(\d+))?([a-zA-Z%])')
 
 
@@ -1956,6 +2139,7 @@ def _status_line(run):
 
 def r7_sse_and_status(run):
     _sse(run)
+    _sse_precedence(run)
     _status_line(run)
 
 
@@ -2371,6 +2555,169 @@ def r12_native_header_values(run):
         raise AnchorError('no raw header setter stores anything')
 
 
+# ---------------------------------------------------------------------------
+# R13: SSEvent.__init__ rejects no documented argument
+# ---------------------------------------------------------------------------
+
+_TYPE_TESTS = ('builtins.isinstance', 'builtins.type', 'builtins.hasattr', 'builtins.issubclass', 'builtins.callable')
+
+
+def _documented_type(p, f: Func, arg: ast.arg) -> Optional[str]:
+    """`Optional[T]` / `T | None` / `T` annotation -> qualified T"""
+    a = arg.annotation
+    if a is None:
+        return None
+    if isinstance(a, ast.Constant) and isinstance(a.value, str):
+        try:
+            a = ast.parse(a.value, mode='eval').body
+        except SyntaxError:
+            return None
+    if isinstance(a, ast.Subscript) and (p.resolve_expr(f.module, a.value, f) or '') in ('typing.Optional',):
+        a = a.slice
+    elif isinstance(a, ast.BinOp) and isinstance(a.op, ast.BitOr):
+        sides = [x for x in (a.left, a.right) if not (isinstance(x, ast.Constant) and x.value is None)]
+        if len(sides) != 1:
+            return None
+        a = sides[0]
+    if not isinstance(a, (ast.Name, ast.Attribute)):
+        return None
+    return p.resolve_expr(f.module, a, f)
+
+
+def r13_sse_ctor(run):
+    """Events are built inside the emitter, AFTER http.response.start went out: an exception from SSEvent.__init__ escapes
+    App.__call__ in mid-stream and the terminating body event is never sent.  So the constructor rejects nothing but a
+    wrongly TYPED argument: every `raise` (and `assert`) in it is unreachable when each argument is None or an instance of
+    its annotated type.  Decided per raise by evaluating its dominating branch facts for every cell of the partition
+    {None, a value of the documented type} of the arguments they mention (`x is None`, isinstance against the documented
+    type and its super/sub-types, not/and/or).  What the cells leave open is a test of the argument's VALUE (comparison,
+    truthiness, a narrower isinstance): the raise then rejects some documented values - a violation; any other open test is
+    an unknown idiom.
+    W: `if retry is not None and retry <= 0: raise ValueError`: an emitter yields SSEvent(retry=0) ('reconnect at once',
+    serialised as 'retry: 0' before): ValueError leaves the app after the start event, more_body never becomes false."""
+    p = run.project
+    f = p.func(SSE_EVENT + '.__init__')
+    cfg = cfg_of(f, p)
+    run.use_cfg(cfg)
+    ix = Index(cfg)
+    a = f.node.args
+    if a.vararg or a.kwarg:
+        raise UnknownIdiom('%s: star-parameters' % f.qual)
+    args = [x for x in (a.posonlyargs + a.args + a.kwonlyargs) if x.arg != 'self']
+    types: Dict[str, str] = {}
+    for x in args:
+        t = _documented_type(p, f, x)
+        if t is None:
+            raise UnknownIdiom('%s: annotation of %s' % (f.qual, x.arg))
+        types[x.arg] = t
+    if not types:
+        raise AnchorError('%s takes no arguments' % f.qual)
+    rebound = {n.id for n in ast.walk(f.node) if isinstance(n, ast.Name) and isinstance(n.ctx, ast.Store) and n.id in types}
+    if rebound:
+        raise UnknownIdiom('%s: rebinds its parameter(s) %s' % (f.qual, ', '.join(sorted(rebound))))
+
+    def classes(e) -> List[Optional[str]]:
+        return [p.resolve_expr(f.module, x, f) for x in (e.elts if isinstance(e, ast.Tuple) else [e])]
+
+    def atom_for(cell: Dict[str, bool], open_value: list, open_other: list):
+        """cell: parameter -> True when it is None, False when it is a value of its documented type"""
+        def atom(e):
+            for name, is_none in cell.items():
+                is_x = lambda x, name=name: is_name(x, name)  # noqa: E731
+                pol = none_test(e, is_x)
+                if pol is not None:
+                    return pol == is_none
+                if is_x(e):
+                    if is_none:
+                        return False
+                    open_value.append(e)          # truthiness of a documented value
+                    return None
+                if isinstance(e, ast.Call) and p.resolve_expr(f.module, e.func, f) == 'builtins.isinstance' and len(e.args) == 2 \
+                        and not e.keywords and is_x(e.args[0]):
+                    cs = classes(e.args[1])
+                    if is_none:
+                        return any(c == 'builtins.object' for c in cs)
+                    t = types[name]
+                    rel = [(p.is_subclass(t, c) if c else None, p.is_subclass(c, t) if c else None) for c in cs]
+                    if any(up is True for (up, _d) in rel):
+                        return True
+                    if any(up is None or down is None for (up, down) in rel):
+                        open_other.append(e)
+                        return None
+                    if any(down is True for (_u, down) in rel):
+                        open_value.append(e)      # a narrower class: some documented values pass, some do not
+                        return None
+                    return False
+            return None
+        return atom
+
+    def leaves(t) -> List[ast.AST]:
+        t = strip_await(t)
+        if isinstance(t, ast.UnaryOp) and isinstance(t.op, ast.Not):
+            return leaves(t.operand)
+        if isinstance(t, ast.BoolOp):
+            return [y for v in t.values for y in leaves(v)]
+        return [t]
+
+    sites = []
+    for n in cfg.live_nodes():
+        if n.kind == 'stmt' and isinstance(n.ast, ast.Raise):
+            sites.append((n, []))
+        elif n.kind == 'stmt' and isinstance(n.ast, ast.Assert):
+            sites.append((n, [(n.ast.test, False)]))
+    what = 'SSEvent.__init__ rejects no argument that is None or an instance of its documented type (an event built in mid-stream must not raise)'
+    explained: Set[str] = set()
+    for n, extra in sites:
+        facts = ix.facts(n.id) + extra
+        names = sorted({x.id for (t, _tr) in facts for x in ast.walk(t) if isinstance(x, ast.Name) and x.id in types})
+        if len(names) > 6:
+            raise UnknownIdiom('%s: %s depends on %d arguments' % (f.qual, short(n.ast, 60), len(names)))
+        verdict = None
+        for bits in range(1 << len(names)):
+            cell = {nm: bool(bits >> i & 1) for i, nm in enumerate(names)}
+            open_value, open_other = [], []
+            atom = atom_for(cell, open_value, open_other)
+            vals = [(t, tr, eval3(t, atom)) for (t, tr) in facts]
+            if any(v is not None and v != tr for (_t, tr, v) in vals):
+                continue            # refuted for this cell: the raise is not reached
+            label = ', '.join('%s %s' % (nm, 'None' if cell[nm] else 'a %s' % types[nm].rsplit('.', 1)[-1]) for nm in names) or 'any arguments'
+            undecided = [y for (t, _tr, v) in vals if v is None for y in leaves(t) if eval3(y, atom) is None]
+            if not undecided:
+                verdict = ('every', label, None)
+                break
+            other = [y for y in undecided if not any(isinstance(x, ast.Name) and x.id in types for x in ast.walk(y))
+                     or any(isinstance(x, ast.Call) and p.resolve_expr(f.module, x.func, f) in _TYPE_TESTS and not any(x is o for o in open_value)
+                            for x in ast.walk(y))]
+            if other or open_other:
+                raise UnknownIdiom('%s: `%s` is guarded by `%s`, which the partition of the arguments does not decide' % (
+                    f.qual, short(n.ast, 60), short((other or open_other)[0], 60)))
+            about = sorted({x.id for y in undecided for x in ast.walk(y) if isinstance(x, ast.Name) and x.id in types})
+            verdict = verdict or ('some', ', '.join('%s %s' % (nm, 'None' if cell[nm] else 'a %s' % types[nm].rsplit('.', 1)[-1]) for nm in about), undecided[0])
+        if verdict is None:
+            run.ok(what, f.loc(n.ast), n.ast)
+        else:
+            kind, label, test = verdict
+            why = 'is reached for %s' % label if kind == 'every' else 'is reached for %s depending on `%s`: a test of the VALUE of a documented argument' % (label, short(test, 60))
+            run.fail(what, f, n.ast, where=f.loc(n.ast), witness=['`%s` %s' % (short(n.ast, 70), why)],
+                     runtime_witness='an SSE emitter yields SSEvent(...) with such an argument (e.g. retry=0) after http.response.start was sent: the '
+                                     'exception leaves App.__call__, the stream never gets its final body event (more_body false)')
+        if isinstance(n.ast, ast.Raise) and n.ast.exc is not None:
+            from .c13_helpers import raised_class
+            q = raised_class(p, f, n.ast)
+            if q:
+                explained.add(q)
+        elif isinstance(n.ast, ast.Assert):
+            explained.add('builtins.AssertionError')
+    if not sites:
+        run.ok(what + ' (it raises nothing itself)', f.loc(), 'no raise')
+    # anything a callee / a conversion may raise is not read by this rule
+    summ = Escape(p).summary(f)
+    hidden = sorted(k for k in summ if k not in explained)
+    if hidden:
+        raise UnknownIdiom('%s: may also raise %s (%s), which is not an explicit raise of the constructor' % (
+            f.qual, hidden[0], '; '.join('%s %s' % w for w in summ[hidden[0]][:2])))
+
+
 def check(run):
     run.assume('send/start_response are the server callables passed to __call__; every send site passes a dict display, a module '
                'constant, or a local bound to a dict display in __call__ (folded with its constant-key field stores)')
@@ -2396,3 +2743,7 @@ def check(run):
     run.rule('R10', r10_sse_stream, 'ASGI SSE: the emitter is validated before the response start; the disconnect watcher is cancelled before it is awaited', floor=2)
     run.rule('R11', r11_media_render, 'media rendering: the optional fast-path serializer is called only where present; the render cache is filled before it is read', floor=5)
     run.rule('R12', r12_native_header_values, 'raw header setters: caller-supplied values reach the header store through str()', floor=4)
+    run.assume('an exception raised while the SSE emitter runs (event construction, serialize, the generator itself) after '
+               'http.response.start propagates out of asgi.App.__call__: the framework has no handler there and does not send the final '
+               'body event - closing such a stream is left to the server; R13 only keeps documented events from raising')
+    run.rule('R13', r13_sse_ctor, 'SSEvent.__init__ rejects only wrongly typed arguments: no value of a documented type raises in mid-stream', floor=6)
